@@ -47,8 +47,10 @@ class Board:
         self.rejected = []
 
     # ------------------------------------------------------------------------------
+    banner_prefix = "EBBv13_and_above EB"      # the hardware token differs between board generations
+
     def banner(self):
-        return "EBBv13_and_above EB Firmware Version %s" % self.version
+        return "%s Firmware Version %s" % (self.banner_prefix, self.version)
 
     def _tok(self, text):
         self.token += 7
@@ -63,8 +65,12 @@ class Board:
             out.append(line.encode("ascii"))
         return out
 
+    _raw_after_name = None
+
     def respond(self, data):
         text, name, args = split_request(data)
+        # free-text commands (ST,<nickname>) take everything after the first comma verbatim
+        self._raw_after_name = text.split(",", 1)[1] if "," in text else ""
         self.received.append((name, args))
         if not text:
             return []
@@ -86,7 +92,7 @@ class Board:
                     return False
                 self.vars[index] = value
             elif up == "ST":
-                nick = ",".join(args)
+                nick = self._raw_after_name if self._raw_after_name is not None else ",".join(args)
                 if len(nick) > 16:
                     return False
                 self.nickname = nick
